@@ -16,7 +16,7 @@ for key in sys.argv[2:]:
     subprocess.run(f"/verif/bin/mutgen apply /repo {m['id']} {d}/repo", shell=True, capture_output=True)
     t = subprocess.run("go build ./... && go test -count=1 -vet=off ./... 2>&1 | tail -1", shell=True, cwd=f"{d}/repo", env=ENV, capture_output=True, text=True)
     print(key, "| existing tests:", t.stdout.strip()[:40])
-    env = dict(ENV, VCHECK_REPO=f"{d}/repo", VCHECK_TAG="-mutone", VCHECK_EVIDENCE_DIR=f"{d}/ev", VCHECK_REPLAY_DIR=f"{d}/rp")
+    env = dict(ENV, VERIF_SEED=os.environ.get("VERIF_SEED", "1"), VCHECK_REPO=f"{d}/repo", VCHECK_TAG="-mutone", VCHECK_EVIDENCE_DIR=f"{d}/ev", VCHECK_REPLAY_DIR=f"{d}/rp")
     for p in props:
         r = subprocess.run(f"/verif/bin/vcheck run --prop {p} --tier quick", shell=True, cwd="/verif", env=env, capture_output=True, text=True)
         lines = [l for l in r.stdout.splitlines() if l.startswith("property=") or l.startswith("OK ") or l.startswith("INCONCLUSIVE")]
